@@ -37,6 +37,16 @@ N_POOL_CLASSIC = 11       # gen_episode draws from the first eleven (nine plain 
 # a schema-valid command whose QoS header cannot be computed (index 01 to a device that has no zones): it can be matched to no echo
 POOL.append((f"RQ --- {HGI} 32:123456 --:------ 2411 003 010052", None))
 HEADERLESS = len(POOL) - 1
+# commands the public constructors build (get_mix_valve_params, get_relay_demand for a zone, get_tpi_params for a heating
+# valve, get_schedule_fragment for a DHW that has no schedule) whose echo or reply the *message* layer does not accept (no
+# such verb / index / shape in its schema) although its QoS header is computable: the exchange is correlated all the same
+MSG_REJECTED = []
+for _q, _r in ((f"RQ --- {HGI} {CTL} --:------ 1030 001 01", f"RP --- {CTL} {GWY} --:------ 1030 016 01C80137C9010FCA0196CB010FCC0101"),
+               (f"RQ --- {HGI} {CTL} --:------ 0008 001 03", f"RP --- {CTL} {GWY} --:------ 0008 002 03C8"),
+               (f"RQ --- {HGI} {CTL} --:------ 1100 001 F9", f"RP --- {CTL} {GWY} --:------ 1100 008 F9180400007FFF01"),
+               (f"RQ --- {HGI} {CTL} --:------ 0404 007 00230008000100", f"RP --- {CTL} {GWY} --:------ 0404 007 002300080001FF")):
+    POOL.append((_q, _r))
+    MSG_REJECTED.append(len(POOL) - 1)
 
 
 def is_plain(cmd: int) -> bool:
